@@ -497,7 +497,7 @@ func (g *Gen) typeInv(st *State, v T, t types.Type) string {
 			return imp("(isnil "+v.S+")", "(= (val "+v.S+") eps)")
 		}
 		return and("(<= 0 (ptr "+v.S+"))", "(<= (ptr "+v.S+") "+a+")", "(<= 0 (off "+v.S+"))", "(<= 0 (len_ "+v.S+"))",
-			imp("(snil "+v.S+")", "(= (len_ "+v.S+") 0)"), imp("(not (snil "+v.S+"))", "(> (ptr "+v.S+") 0)"))
+			imp("(snil "+v.S+")", and("(= (len_ "+v.S+") 0)", "(= (ptr "+v.S+") 0)")), imp("(not (snil "+v.S+"))", "(> (ptr "+v.S+") 0)"))
 	case *types.Struct:
 		var cs []string
 		so := g.sortOf(t)
